@@ -148,4 +148,16 @@ def matchAll : Tree Bytes → List Bytes → List Bool → Tree Bytes × List Bo
     let r := matchHost t h
     matchAll r.1 hs (r.2 :: acc)
 
+/-- one harness line: configure the values, then ask for every host in turn (`none` = parse did not end normally) -/
+def verdicts (values hosts : List Bytes) : Option (List Bool) :=
+  match parse values with
+  | .ok t _ => some (matchAll t hosts []).2
+  | _ => none
+
+/-- the stored values, left to right, after configuring `values` -/
+def stored (values : List Bytes) : Option (List Bytes) :=
+  match parse values with
+  | .ok t _ => some t.inorder
+  | _ => none
+
 end SquidModel.Acl.Domain
